@@ -10,7 +10,7 @@ META = {
                  "extraction oracles; mutation fuzzing of the repository's .mfront/.mtest files and random bytes with a "
                  "crash/sanitizer/hang classifier",
     "text": "Generated streams of identifiers, integer/float literals, strings, characters, 1- and 2-character operators, // and /* */ "
-            "comments (multi-line, doxygen) and preprocessor lines are tokenized to exactly the generated elements with the expected flags, "
+            "comments (multi-line, doxygen, bodies with runs of stars up to the closing mark, slashes, comment openers inside, empty bodies, several per line) and preprocessor lines are tokenized to exactly the generated elements with the expected flags, "
             "line numbers and offsets, for the default, charAsString, configuration (. + - not separators) and keepCommentBoundaries "
             "option sets; stripComments removes exactly the comment tokens; readDouble/readInt/readUnsignedInt return the literal's value. "
             "On mutated real files and random bytes the tokenizer (all option sets, stripComments, line-by-line mode, openFile) ends by a "
@@ -23,7 +23,7 @@ META = {
 
 SRC = vfcore.VERIF / "harness/text/c31.cxx"
 LIBS = ("TFELUtilities", "TFELException")
-CORE = ["core", "preprocessor"]
+CORE = ["core", "preprocessor", "comments-hostile"]
 EXOTIC = ["hex", "binary", "float-suffix-exp", "op-and-assign", "op-xor-assign", "op-arrow-star", "doxygen-backward-first"]
 OPTS = ["default", "charAsString", "config", "keepCommentBoundaries"]
 
@@ -147,6 +147,10 @@ def run(ctx):
     n_core = ctx.n(40000, 3000000)
     run_class(ctx, b, "core", n_core, summ)
     run_class(ctx, b, "preprocessor", n_core // 3, summ)
+    # comments with hostile-but-valid bodies (runs of '*' before the closing "*/", '/', "/*", "//" inside, "*/" in a // comment,
+    # empty bodies, a last line made of stars, several comments back to back); 35 % of the comments of the other classes are of
+    # that kind too, 90 % here, and about half of the items of these streams are comments
+    run_class(ctx, b, "comments-hostile", ctx.n(15000, 1000000), summ)
     for cls in EXOTIC:
         run_class(ctx, b, cls, ctx.n(2000, 40000), summ)
     req = [(api, "%s/%s" % (c, o), 500) for api in ("tokens", "lines", "offsets", "stripComments") for c in CORE for o in OPTS]
